@@ -3,7 +3,7 @@
     lifted from [Executor.Execute] over an abstract table to [Execute] over the
     store with read faults, and to the file loop of `migrate apply`. *)
 From Coq Require Import List NArith Bool Arith Lia.
-From Atlas Require Import Base.Bytes Base.ListX Exec.ExecModel Exec.ExecProofs Exec.PendingModel Exec.RunModel Exec.StoreModel.
+From Atlas Require Import Base.Bytes Base.ListX Exec.ExecModel Exec.ExecProofs Exec.StepProofs Exec.PendingModel Exec.RunModel Exec.StoreModel.
 Import ListNotations.
 
 Section Proofs.
@@ -451,6 +451,94 @@ Proof.
       * inversion E; subst. split; [exists x2; auto|exists m; exact Hj2].
       * inversion E; subst. split; [exists x2; auto|exists m; exact Hj2].
   - inversion E; subst. split; [exists x1; auto|exists 0; exact Hj1].
+Qed.
+
+(** ** the premise [recorded] is what the executor itself leaves behind *)
+
+(** Tables reachable by earlier attempts on the (unchanged) file [f], through
+    the store, with arbitrary faults: the revision was absent at first; an
+    attempt is made only while the file is pending (absent or partial revision:
+    what [Executor.Pending] returns). *)
+Inductive after_attempts (f : file) : list rev -> Prop :=
+| AA_first t : tbl_get t (f_version f) = None -> after_attempts f t
+| AA_again t fs o t' fs' es :
+    after_attempts f t ->
+    (forall r, tbl_get t (f_version f) = Some r -> r_applied r <> r_total r) ->
+    execute_st f t fs = (o, t', fs', es) -> after_attempts f t'.
+
+Definition attempt_inv (f : file) (t : list rev) : Prop :=
+  tbl_get t (f_version f) = None \/
+  exists r, tbl_get t (f_version f) = Some r /\ r_total r = length (f_stmts f) /\
+            claim_ok hash HS f r (r_applied r).
+
+Lemma claim_partial_recorded f (r : rev) :
+  claim_ok hash HS f r (r_applied r) -> r_total r = length (f_stmts f) -> r_applied r <> r_total r ->
+  recorded r (f_stmts f).
+Proof.
+  intros (_ & _ & Hle & [Hh|[Hm _]]) Ht Hp; [split; [exact Hle|exact Hh]|congruence].
+Qed.
+
+Lemma after_attempts_inv f t : after_attempts f t -> attempt_inv f t.
+Proof.
+  induction 1 as [t Hn|t fs o t' fs' es _ IH Hpend Hex]; [left; exact Hn|].
+  destruct (hd false fs) eqn:Hh.
+  { rewrite (execute_st_read_error _ _ _ Hh) in Hex. inversion Hex; subst. exact IH. }
+  rewrite (execute_st_read_ok _ _ _ Hh) in Hex.
+  destruct (execute f t (tl fs)) as [[[o0 t0] fs0] es0] eqn:E. inversion Hex; subst. clear Hex.
+  assert (exists r0, pre hash HS f t r0 /\ r_total r0 = length (f_stmts f)) as (r0 & Hpre & Htot).
+  { destruct IH as [Hn|(r & Hg & Ht & Hc)].
+    - exists (new_rev (f_version f) (length (f_stmts f))). split; [left; auto|reflexivity].
+    - exists r. split; [right; split; [exact Hg|]|exact Ht].
+      apply claim_partial_recorded; auto. }
+  destruct (execute_spec hash hash_eqb HS hash_eqb_spec f t r0 (tl fs) o0 t' fs' es Hpre Htot E)
+    as (c & a' & _ & _ & _ & _ & _ & _ & Hst & _).
+  destruct Hst as [(-> & Hn & _)|(r' & -> & Hc & Ht')]; [left; exact Hn|].
+  right. exists r'. pose proof Hc as (Hv & Ha & _).
+  split; [rewrite <- Hv; apply tbl_get_put_same|]. split; [exact Ht'|]. rewrite Ha. exact Hc.
+Qed.
+
+(** End to end: the file was attempted any number of times (any faults), is
+    partially applied, and then its applied part is edited: the next attempt,
+    whatever fails in the storage layer, executes nothing and leaves the table
+    as it is (or a collision between the two files' prefixes is exhibited).
+    No premise about the stored hashes is left: they are what the earlier
+    attempts recorded. *)
+Lemma C12_end_to_end_refuse_lemma f_old f_new t (r : rev) :
+  after_attempts f_old t -> f_version f_new = f_version f_old ->
+  tbl_get t (f_version f_old) = Some r -> 0 < r_applied r -> r_applied r <> r_total r ->
+  firstn (r_applied r) (f_stmts f_new) <> firstn (r_applied r) (f_stmts f_old) ->
+  forall fs o t' fs' es, execute_st f_new t fs = (o, t', fs', es) ->
+  collision_at (f_stmts f_old) (f_stmts f_new) (r_applied r) \/
+  (exec_events es = [] /\ t' = t /\ o <> SExec ODone).
+Proof.
+  intros HA Hv Hget Hpos Hpart Hne fs o t' fs' es Hex.
+  destruct (after_attempts_inv _ _ HA) as [Hn|(r1 & Hg & Ht & Hc)]; [congruence|].
+  assert (r1 = r) as -> by congruence.
+  pose proof (claim_partial_recorded _ _ Hc Ht Hpart) as Hrec.
+  rewrite <- Hv in Hget.
+  destruct (C12_refuse_st_lemma t fs f_new r (f_stmts f_old) Hget Hpos Hrec Hne _ _ _ _ Hex)
+    as [Hcol|(He & Ht' & Ho & _)]; [left; exact Hcol|right; auto].
+Qed.
+
+(** ... and when only the tail was edited (or nothing), the fault-free next
+    attempt runs exactly the new tail and leaves a complete revision. *)
+Lemma C12_end_to_end_tail_lemma f_old f_new t (r : rev) :
+  after_attempts f_old t -> f_version f_new = f_version f_old ->
+  tbl_get t (f_version f_old) = Some r -> r_applied r <> r_total r ->
+  firstn (r_applied r) (f_stmts f_new) = firstn (r_applied r) (f_stmts f_old) ->
+  exists t' es r',
+    execute_st f_new t [] = (SExec ODone, t', [], es) /\
+    journal es = map (pair (f_version f_new)) (skipn (r_applied r) (f_stmts f_new)) /\
+    tbl_get t' (f_version f_new) = Some r' /\
+    r_applied r' = length (f_stmts f_new) /\ r_total r' = length (f_stmts f_new) /\ r_hashes r' = [] /\
+    (forall v', v' <> f_version f_new -> tbl_get t' v' = tbl_get t v').
+Proof.
+  intros HA Hv Hget Hpart Hsame.
+  destruct (after_attempts_inv _ _ HA) as [Hn|(r1 & Hg & Ht & Hc)]; [congruence|].
+  assert (r1 = r) as -> by congruence.
+  pose proof (claim_partial_recorded _ _ Hc Ht Hpart) as Hrec.
+  rewrite <- Hv in Hget.
+  exact (C12_tail_st_lemma t f_new r (f_stmts f_old) Hget Hrec Hsame).
 Qed.
 
 End Proofs.
